@@ -808,7 +808,7 @@ impl SvgElement {
 
     /// True while a position / size shorthand, relative spec or containment spec still awaits
     /// resolution, i.e. the element's geometry attributes are not final yet.
-    fn has_pending_geometry(&self) -> bool {
+    pub(crate) fn has_pending_geometry(&self) -> bool {
         self.has_attr("xy")
             || self.has_attr("cxy")
             || self.has_attr("xy1")
